@@ -383,7 +383,7 @@ func RunCheck(id, tier, repo string, seed int, updateBaseline, quiet, writeEvide
 	// anchors: post/inv/typeinv/const/lemma obligations of the baseline must be generated again
 	var anchorsMissing []string
 	for n := range baseline {
-		if !generated[n] && (strings.Contains(n, "/post(") || strings.Contains(n, "/inv(") || strings.Contains(n, "/const(") || strings.Contains(n, "/lemma(") || strings.Contains(n, "/typeinv(")) {
+		if !generated[n] && (strings.Contains(n, "/post(") || strings.Contains(n, "/inv(") || strings.Contains(n, "/const(") || strings.Contains(n, "/lemma(") || strings.Contains(n, "/typeinv(") || strings.Contains(n, "/applies(") || strings.Contains(n, "/returnsparam(")) {
 			anchorsMissing = append(anchorsMissing, n)
 		}
 	}
@@ -624,6 +624,7 @@ func trustedAssumptions() []string {
 		"nil dereferences, index errors and failed type assertions are assumed absent in functions without 'safety on' (a panic is not a return, so postconditions say nothing about it)",
 		"strings are modelled as byte sequences in the SMT string theory; float64 arithmetic is uninterpreted",
 		"allocation never fails; no stack overflow; no slice is longer than 2^48 elements (address-space bound)",
+		"type invariants (typeinv) follow visible-state semantics: proved at every allocation site and at the exit of every verified function that stores into the type, assumed for pointer parameters at entry and (when they held before) after a call; NOT re-proved at call sites for objects reached through fields, so a function that breaks the invariant of an object it reaches through a field without receiving it as a parameter is not caught",
 	}
 }
 
